@@ -49,6 +49,14 @@ CHECKS = {
             "TLA+ spec Adts.tla (ADTS object state machine + ISO 13818-7 header / ASC layout functions, reference decoder) checked by TLC incl. 7-byte-CRC deviation; TLC-enumerated matrices and behaviours replayed into the aac package",
             "TLC checks all interleavings of SetASC/Encode/ISO-writer/Decode writing up to 3 frames (every stream decodes frame by frame to exactly its raw blocks, remainder at the next sync word), the layout functions over the full finite matrices (65536 ASC values, all header field combinations), and every enumerated case/behaviour is replayed into the real library with the specification's bytes, results and abstract state as oracle",
             "trusts TLC, the LD expander and the transcription of ISO 13818-7 6.2 / 14496-3 1.6.2.1; CRC value itself is not checked (library does not verify it); ID/private/copyright/fullness bits of encoder output not judged", "5/C11"),
+    "C13": ("model_checking",
+            "TLA+ validator WsWire.tla of recorded frame streams (TLC trace validation, 16 named sender deviations rejected) + TLC-enumerated writer configuration matrix (WsWriterCfg) + handshake decision table (WsHandshake), replayed into real Conn/Dialer/Upgrader",
+            "every frame the library writes is tokenised by an independent RFC 6455 parser and replayed as one step of WsWire.tla (FIN/continuation sequencing, masking by role, minimal length form, control frames <=125 and unfragmented, RSV1 only on the first frame of a compressed message, RFC 7692 tail removal, payload equality after reassembly/inflation) for sessions over role x compression level x buffer size x six write APIs x boundary sizes x partitions; the peer endpoint must return exactly the messages; Upgrade and Dial follow the RFC 6455 section 4 table with an independently computed accept key; corrupted recorded traces are shown to be rejected in every run",
+            "trusted: the Go tokenizer and inflater (compress/flate), loopback TCP; payloads are patterns or seeded random bytes; deadlines, TLS, proxies, subprotocols not exercised", "5/C13"),
+    "C15": ("model_checking",
+            "TLA+ spec WsConc.tla (write lock, close-sent latch, per-frame transport writes; TLC over all interleavings, four named deviations) + TLC-generated schedules forced on a gated transport under -race + TLC trace validation of the recorded executions",
+            "in the model every interleaving of one data writer (multi-frame messages, frames of one or two transport writes), k control senders and a closer keeps the writes of a frame adjacent, puts nothing on the wire after a Close frame, makes later calls fail with close-sent and keeps data frames in order; each schedule the model allows, plus schedules that attempt the forbidden steps, is forced on the real Conn; every recorded execution (transport write order, call results, tokenised wire, messages delivered to a real peer) must be accepted by the specification and the race detector must stay silent; corrupted traces are shown to be rejected",
+            "trusted: in-memory gated transport, scheduler, goroutine attribution, frame tokenizer; lock hand-off among waiters is the runtime's choice (coverage, not verdicts, depends on it); library-internal steps not separated by a transport operation are covered in the model and only sampled on the code", "5/C15"),
     "C16": ("model_checking",
             "symbolic TLA+ state machine Jose.tla (TLC: accept-iff-untampered invariants, 3 named deviations) + TLC-enumerated RFC 7518 matrix replayed with real keys and single-bit flips into https/jose",
             "TLC checks on a perfect-cryptography term model that verification/decryption succeeds exactly when no carried field was changed and the key is the same, for every algorithm/serialization/tamper class, and enumerates the whole matrix; every enumerated object is signed/encrypted, serialized, bit-flipped per field (every bit for 1-byte payloads in thorough), parsed and opened by the real library and compared with the model's verdict; JWS signatures are also checked by an independent stdlib verifier; JWK round trip, fixed-width coordinates (leading-zero keys) and the RFC 7638 thumbprint are checked against spec tables",
